@@ -474,7 +474,7 @@ func c13Null(a *acc) {
 func (c13) Describe(tier string) fw.Description {
 	return fw.Description{
 		Level: "model_checking",
-		Rule: "exhaustive product: all patterns of length <= n over {%,_,a,b,.} x all texts of length <= n over the same alphabet x 4 contexts (WHERE, CASE WHEN, SELECT x LIKE p, HAVING) evaluated by the real engine (EmitSync / CountingWindow(1)+HAVING) against an anchored-regexp reference (ref.Like); IS NULL / IS NOT NULL over present (incl. '', 0, false), NULL and missing columns and nested paths in WHERE, SELECT, CASE, HAVING and an AND combination; a case = (pattern,text,context); non-trivial = the reference says the text matches",
+		Rule: "exhaustive product: all patterns of length <= n over {%,_,a,b,.} x all texts of length <= n over the same alphabet x 4 contexts (WHERE, CASE WHEN, SELECT x LIKE p, HAVING) evaluated by the real engine (EmitSync / CountingWindow(1)+HAVING) against an anchored-regexp reference (ref.Like); IS NULL / IS NOT NULL over present (incl. '', 0, false), NULL and missing columns and nested paths in WHERE, SELECT, CASE, HAVING and an AND combination; the same with upper/lower/mixed-case keywords, NULL and missing text, LIKE combined with IS NULL, and columns, aliases and HAVING texts whose names contain keywords (caseNote, orders, case_id, use_case); a case = (pattern,text,context); non-trivial = the reference says the text matches",
 		Bounds:      map[string]any{"max_len": map[string]any{"quick": "4 in WHERE and CASE, 3 in SELECT and HAVING", "thorough": 4}, "alphabet": c13Chars, "contexts": c13Contexts},
 		Assumptions: []string{"patterns and texts contain no quote characters", "LIKE over NULL/missing text is not asserted here"},
 	}
